@@ -41,6 +41,10 @@ def run_history(r, hist, build, tag, extra_eval=None):
     """build() -> fresh model with caches installed (must call fx.reset_caches itself when the
     opacity tables are process-wide).  The live model and every fresh model share the installed
     opacity tables (they are inputs, not state under test)."""
+    # a bystander built before anything happens to the live object: never touched, it must give the same answer
+    # at the end as at the beginning (no state shared between objects of one process)
+    twin = build()
+    twin_first = evaluate(twin)
     live = build()
     first = evaluate(live)          # populate every cache with the initial settings
     net = {}
@@ -68,4 +72,7 @@ def run_history(r, hist, build, tag, extra_eval=None):
         r.observe(got[1])
         if not ok:
             return
+    twin_last = evaluate(twin)
+    r.eq(twin_last[1], twin_first[1], 'bystander-unaffected', 'bystander/%s/ops=%s' % (tag, '>'.join(names)), rtol=0.0,
+         atol=0.0, hist=hist)
     r.nontrivial = len(hist) > 1
